@@ -39,7 +39,12 @@ _CALL = re.compile(r"when calling (.*?)(?: \(which (?:returns|raises).*\))?$", r
 
 def _call_of(message):
     m = _CALL.search(message)
-    return m.group(1).strip() if m else None
+    if not m:
+        return None
+    call = m.group(1).strip()
+    # CrossHair may add "with crosshair.patch_to_return({time.time: [...]})" (it models the
+    # clock); the replay runs with the real clock
+    return call.split(" with crosshair.patch_to_return(")[0].strip()
 
 
 def _replay(file, fn, call, fixed):
@@ -47,6 +52,8 @@ def _replay(file, fn, call, fixed):
     code = ("import sys; sys.path.insert(0, %r)\nfrom vf.replay import replay_xh\n"
             "sys.exit(replay_xh(%r, %r, %r, fixed=%r))\n" % (str(ROOT), str(file), fn, call, fixed or {}))
     p = subprocess.run([PY, "-c", code], cwd=ROOT, capture_output=True, text=True, timeout=600)
+    if p.returncode not in (0, 1):
+        return None, (p.stdout + p.stderr)[-1500:], code
     return p.returncode == 1, (p.stdout + p.stderr)[-1500:], code
 
 
@@ -58,13 +65,26 @@ def run_jobs(check: Check, file, jobs, key_of=None):
     reachable under the preconditions)."""
     file = ROOT / file
     check.engines.add("crosshair-tool 0.0.110 (z3 %s)" % _z3_version())
+    import threading
+    lock = threading.Lock()
+
+    def one(j):
+        """run a job; while its counterexample is a *known* finding, exclude that case and
+        explore the rest of the job's space again (so a different violation is still found)"""
+        j = dict(j)
+        for _ in range(12):
+            r = _run_worker(file, j["fn"], j.get("timeout", 60), j.get("fixed"), j.get("per_path"))
+            with lock:
+                again = _classify(check, file, j, r)
+            if not again:
+                return
+            fixed = dict(j.get("fixed") or {})
+            fixed["exclude"] = list(fixed.get("exclude", [])) + [again]
+            j["fixed"] = fixed
+
     with cf.ThreadPoolExecutor(max_workers=NCPU) as ex:
-        futs = {ex.submit(_run_worker, file, j["fn"], j.get("timeout", 60), j.get("fixed"),
-                          j.get("per_path")): j for j in jobs}
-        for fut in cf.as_completed(futs):
-            j = futs[fut]
-            r = fut.result()
-            _classify(check, file, j, r)
+        for fut in cf.as_completed([ex.submit(one, j) for j in jobs]):
+            fut.result()
 
 
 def _z3_version():
@@ -75,7 +95,20 @@ def _z3_version():
         return "?"
 
 
+def _args_of(call):
+    import ast
+    try:
+        node = ast.parse(call, mode="eval").body
+        return [ast.literal_eval(a) if not isinstance(a, ast.Call) else ast.unparse(a) for a in node.args]
+    except Exception:
+        return None
+
+
 def _classify(check, file, j, r):
+    """records the job's result; returns an argument tuple to exclude when the job should be
+    re-run because its counterexample is a known finding, else None"""
+    from .common import load_known
+    import fnmatch
     fn, fixed = j["fn"], j.get("fixed") or {}
     name = fn + ("[" + ",".join(f"{k}={v}" for k, v in sorted(fixed.items())) + "]" if fixed else "")
     twin = fn.endswith("__reach")
@@ -102,6 +135,9 @@ def _classify(check, file, j, r):
             check.obligation(name, ERROR, detail="unparsable counterexample: " + m["message"], **kw)
             return
         ok, out, code = _replay(file, fn, call, fixed)
+        if ok is None:
+            check.obligation(name, ERROR, detail="replay could not be evaluated: " + call + "\n" + out[-600:], **kw)
+            return
         check.witnesses.append(dict(harness=name, counterexample=call, message=m["message"][:300],
                                     reproduced_on_real_code=ok))
         if ok:
@@ -109,8 +145,15 @@ def _classify(check, file, j, r):
                                       "#!/verif/.venv/bin/python\n# %s\n# exit 1 = violation reproduces on the real code\n%s"
                                       % (m["message"].replace("\n", " ")[:300], code))
             key = (j.get("key") or fn)
+            args = _args_of(call)
+            if j.get("key_fn") and args is not None:
+                key = j["key_fn"](args)
             check.obligation(name, VIOLATED, detail=m["message"], sample=sample, **kw)
             check.violation(key, f"{call}: {m['message'][:200]}", path)
+            if j.get("exclude") and args is not None and any(
+                    k.get("status") == "known" and k.get("property") == check.pid
+                    and fnmatch.fnmatchcase(key, k["key"]) for k in load_known()):
+                return [args[i] for i in j["exclude"]]
         else:
             check.obligation(name, ERROR, detail="counterexample does not reproduce on the real code: "
                              + call + "\n" + out[-600:], **kw)
